@@ -40,6 +40,10 @@ def generate(rng, tier, shard, nshards):
                 if len(ctx) == L and rng.random() < 0.5:
                     continue
                 warm = [rng.choice(ctxs) for _ in range(rng.choice([0, 0, 2]))]
+                if ctx and rng.random() < 0.5:
+                    # the parent context, then a sibling, then this context - on one LM object
+                    sib = [t for t in sorted(g.V) if t != ctx[-1]]
+                    warm = [ctx[:-1]] + [ctx[:-1] + [t] for t in sib] + warm
                 yield gops.event("pnext", dict(base, ctx=ctx, backend=backend, warm=warm), site=f"{backend}LM.p_next", feat=feat)
             for s in ctxs[: 8 if tier == "quick" else 31]:
                 yield gops.event("lmcall", dict(base, s=s, backend=backend), site=f"{backend}LM.__call__", feat=feat)
